@@ -1,1 +1,591 @@
-//! (stub — being implemented)
+//! Stream wrappers for chunking / fault-injection checks (DESIGN §3.5).
+//!
+//! * [`Chunky`]   — hands out / accepts only `1..=k` bytes per `read` / `write` (piece sizes from a
+//!   [`SplitMix64`]); seeks and flushes pass through. Results of a correct caller must not change.
+//! * [`Faulty`]   — counts every I/O call and injects exactly one fault (an `io::Error` of a chosen kind,
+//!   or a premature `Ok(0)`) at the n-th call (of any kind, or of one kind). With no plan it is a pure
+//!   call counter: a dry run tells how many calls the fault-free operation makes.
+//! * [`Counting`] — records the op trace (kind, argument, result) into a shared log.
+//!
+//! All three implement `Read`, `Write`, `Seek` whenever the inner stream does, and are `Send` when the
+//! inner stream is. The statistics live behind an `Arc`, so they stay readable after the wrapper has been
+//! moved into (and dropped by) the SDK: take a handle with `.stats()` / `.log()` first.
+
+use std::{
+    io::{self, Read, Seek, SeekFrom, Write},
+    sync::{
+        atomic::{AtomicBool, AtomicU64, Ordering},
+        Arc, Mutex,
+    },
+};
+
+use serde::{Deserialize, Serialize};
+
+use crate::rng::SplitMix64;
+
+// ------------------------------------------------------------------------------------------------
+// Chunky
+// ------------------------------------------------------------------------------------------------
+
+/// Returns / accepts between 1 and `max_piece` bytes per `read` / `write` call.
+pub struct Chunky<R> {
+    inner: R,
+    rng: SplitMix64,
+    max_piece: usize,
+}
+
+impl<R> Chunky<R> {
+    /// Pieces of `1..=max_piece` bytes (`max_piece == 1` ⇒ always exactly one byte), sizes drawn from `seed`.
+    pub fn new(inner: R, max_piece: usize, seed: u64) -> Self {
+        Chunky { inner, rng: SplitMix64::new(seed), max_piece: max_piece.max(1) }
+    }
+
+    /// `max_piece` itself is drawn from `rng` (1..=64, small values favoured); piece sizes from a fork of it.
+    pub fn random(inner: R, rng: &mut SplitMix64) -> Self {
+        let max_piece = match rng.below(4) {
+            0 => 1 + rng.usize(4),
+            1 => 1 + rng.usize(16),
+            _ => 1 + rng.usize(64),
+        };
+        Chunky { inner, rng: rng.fork(), max_piece }
+    }
+
+    pub fn max_piece(&self) -> usize {
+        self.max_piece
+    }
+
+    pub fn get_ref(&self) -> &R {
+        &self.inner
+    }
+
+    pub fn get_mut(&mut self) -> &mut R {
+        &mut self.inner
+    }
+
+    pub fn into_inner(self) -> R {
+        self.inner
+    }
+
+    fn piece(&mut self, want: usize) -> usize {
+        if want == 0 {
+            return 0;
+        }
+        let cap = want.min(self.max_piece);
+        1 + self.rng.usize(cap)
+    }
+}
+
+impl<R: Read> Read for Chunky<R> {
+    fn read(&mut self, buf: &mut [u8]) -> io::Result<usize> {
+        let n = self.piece(buf.len());
+        self.inner.read(&mut buf[..n])
+    }
+}
+
+impl<R: Write> Write for Chunky<R> {
+    fn write(&mut self, buf: &[u8]) -> io::Result<usize> {
+        let n = self.piece(buf.len());
+        self.inner.write(&buf[..n])
+    }
+
+    fn flush(&mut self) -> io::Result<()> {
+        self.inner.flush()
+    }
+}
+
+impl<R: Seek> Seek for Chunky<R> {
+    fn seek(&mut self, pos: SeekFrom) -> io::Result<u64> {
+        self.inner.seek(pos)
+    }
+}
+
+// ------------------------------------------------------------------------------------------------
+// Faulty
+// ------------------------------------------------------------------------------------------------
+
+#[derive(Clone, Copy, Debug, PartialEq, Eq, Hash, Serialize, Deserialize)]
+pub enum OpKind {
+    Read,
+    Write,
+    Seek,
+    Flush,
+}
+
+impl OpKind {
+    pub fn name(self) -> &'static str {
+        match self {
+            OpKind::Read => "read",
+            OpKind::Write => "write",
+            OpKind::Seek => "seek",
+            OpKind::Flush => "flush",
+        }
+    }
+}
+
+/// What the faulted call returns.
+#[derive(Clone, Copy, Debug, PartialEq, Eq, Hash, Serialize, Deserialize)]
+pub enum FaultKind {
+    Other,
+    UnexpectedEof,
+    Interrupted,
+    WriteZero,
+    PermissionDenied,
+    BrokenPipe,
+    TimedOut,
+    InvalidData,
+    /// `Ok(0)` from a read (premature end of file) or a write (nothing accepted). Not applicable to
+    /// seek / flush: there the call passes through and the fault counts as *not fired*.
+    ShortZero,
+}
+
+impl FaultKind {
+    pub fn name(self) -> &'static str {
+        match self {
+            FaultKind::Other => "Other",
+            FaultKind::UnexpectedEof => "UnexpectedEof",
+            FaultKind::Interrupted => "Interrupted",
+            FaultKind::WriteZero => "WriteZero",
+            FaultKind::PermissionDenied => "PermissionDenied",
+            FaultKind::BrokenPipe => "BrokenPipe",
+            FaultKind::TimedOut => "TimedOut",
+            FaultKind::InvalidData => "InvalidData",
+            FaultKind::ShortZero => "ShortZero",
+        }
+    }
+
+    pub fn io_kind(self) -> Option<io::ErrorKind> {
+        Some(match self {
+            FaultKind::Other => io::ErrorKind::Other,
+            FaultKind::UnexpectedEof => io::ErrorKind::UnexpectedEof,
+            FaultKind::Interrupted => io::ErrorKind::Interrupted,
+            FaultKind::WriteZero => io::ErrorKind::WriteZero,
+            FaultKind::PermissionDenied => io::ErrorKind::PermissionDenied,
+            FaultKind::BrokenPipe => io::ErrorKind::BrokenPipe,
+            FaultKind::TimedOut => io::ErrorKind::TimedOut,
+            FaultKind::InvalidData => io::ErrorKind::InvalidData,
+            FaultKind::ShortZero => return None,
+        })
+    }
+}
+
+/// One planned fault.
+#[derive(Clone, Copy, Debug, PartialEq, Eq, Hash, Serialize, Deserialize)]
+pub struct FaultPlan {
+    /// 0-based index of the call to fault, counted over all calls (`only == None`) or over the calls of
+    /// one kind (`only == Some(kind)`).
+    pub at: u64,
+    pub only: Option<OpKind>,
+    pub kind: FaultKind,
+    /// false: exactly that one call is faulted (a transient fault); true: that call and every later
+    /// call of a kind the fault applies to (a device that stays broken / a file that stays truncated).
+    pub sticky: bool,
+}
+
+impl FaultPlan {
+    pub fn nth(at: u64, kind: FaultKind) -> Self {
+        FaultPlan { at, only: None, kind, sticky: false }
+    }
+
+    pub fn nth_of(at: u64, op: OpKind, kind: FaultKind) -> Self {
+        FaultPlan { at, only: Some(op), kind, sticky: false }
+    }
+
+    pub fn sticky(mut self) -> Self {
+        self.sticky = true;
+        self
+    }
+}
+
+/// Call counters of a [`Faulty`] stream (shared handle).
+#[derive(Default, Debug)]
+pub struct FaultStats {
+    reads: AtomicU64,
+    writes: AtomicU64,
+    seeks: AtomicU64,
+    flushes: AtomicU64,
+    fired: AtomicU64,
+    /// kind of the first call that was faulted: 0 none, 1 read, 2 write, 3 seek, 4 flush
+    fired_on: AtomicU64,
+    /// bytes delivered by reads / accepted by writes
+    bytes_read: AtomicU64,
+    bytes_written: AtomicU64,
+    /// some read returned Ok(0) *naturally* (the consumer saw the real end of the stream)
+    saw_eof: AtomicBool,
+}
+
+impl FaultStats {
+    pub fn reads(&self) -> u64 {
+        self.reads.load(Ordering::SeqCst)
+    }
+
+    pub fn writes(&self) -> u64 {
+        self.writes.load(Ordering::SeqCst)
+    }
+
+    pub fn seeks(&self) -> u64 {
+        self.seeks.load(Ordering::SeqCst)
+    }
+
+    pub fn flushes(&self) -> u64 {
+        self.flushes.load(Ordering::SeqCst)
+    }
+
+    /// Total number of I/O calls seen so far.
+    pub fn ops(&self) -> u64 {
+        self.reads() + self.writes() + self.seeks() + self.flushes()
+    }
+
+    pub fn count_of(&self, k: OpKind) -> u64 {
+        match k {
+            OpKind::Read => self.reads(),
+            OpKind::Write => self.writes(),
+            OpKind::Seek => self.seeks(),
+            OpKind::Flush => self.flushes(),
+        }
+    }
+
+    /// How many calls were actually faulted (0 = the planned call was never reached or not applicable).
+    pub fn fired(&self) -> u64 {
+        self.fired.load(Ordering::SeqCst)
+    }
+
+    /// Kind of the first faulted call.
+    pub fn fired_on(&self) -> Option<OpKind> {
+        match self.fired_on.load(Ordering::SeqCst) {
+            1 => Some(OpKind::Read),
+            2 => Some(OpKind::Write),
+            3 => Some(OpKind::Seek),
+            4 => Some(OpKind::Flush),
+            _ => None,
+        }
+    }
+
+    pub fn bytes_read(&self) -> u64 {
+        self.bytes_read.load(Ordering::SeqCst)
+    }
+
+    pub fn bytes_written(&self) -> u64 {
+        self.bytes_written.load(Ordering::SeqCst)
+    }
+
+    pub fn saw_eof(&self) -> bool {
+        self.saw_eof.load(Ordering::SeqCst)
+    }
+}
+
+/// Counts every call and injects the planned fault.
+pub struct Faulty<R> {
+    inner: R,
+    plan: Option<FaultPlan>,
+    stats: Arc<FaultStats>,
+}
+
+impl<R> Faulty<R> {
+    /// Pure counter (dry run): never fails.
+    pub fn dry(inner: R) -> Self {
+        Faulty { inner, plan: None, stats: Arc::new(FaultStats::default()) }
+    }
+
+    pub fn new(inner: R, plan: FaultPlan) -> Self {
+        Faulty { inner, plan: Some(plan), stats: Arc::new(FaultStats::default()) }
+    }
+
+    pub fn with_plan(inner: R, plan: Option<FaultPlan>) -> Self {
+        Faulty { inner, plan, stats: Arc::new(FaultStats::default()) }
+    }
+
+    /// Shared handle on the counters (stays valid after the stream was moved / dropped).
+    pub fn stats(&self) -> Arc<FaultStats> {
+        self.stats.clone()
+    }
+
+    pub fn get_ref(&self) -> &R {
+        &self.inner
+    }
+
+    pub fn get_mut(&mut self) -> &mut R {
+        &mut self.inner
+    }
+
+    pub fn into_inner(self) -> R {
+        self.inner
+    }
+
+    /// Count the call; tell whether it is to be faulted, and how.
+    fn tick(&mut self, op: OpKind) -> Option<FaultKind> {
+        let all_before = self.stats.ops();
+        let ctr = match op {
+            OpKind::Read => &self.stats.reads,
+            OpKind::Write => &self.stats.writes,
+            OpKind::Seek => &self.stats.seeks,
+            OpKind::Flush => &self.stats.flushes,
+        };
+        let kind_before = ctr.fetch_add(1, Ordering::SeqCst);
+        let plan = self.plan?;
+        let idx = match plan.only {
+            None => all_before,
+            Some(k) if k == op => kind_before,
+            Some(_) => return None,
+        };
+        let hit = if plan.sticky { idx >= plan.at } else { idx == plan.at };
+        if !hit {
+            return None;
+        }
+        if plan.kind == FaultKind::ShortZero && !matches!(op, OpKind::Read | OpKind::Write) {
+            return None;
+        }
+        if self.stats.fired.fetch_add(1, Ordering::SeqCst) == 0 {
+            let code = match op {
+                OpKind::Read => 1,
+                OpKind::Write => 2,
+                OpKind::Seek => 3,
+                OpKind::Flush => 4,
+            };
+            self.stats.fired_on.store(code, Ordering::SeqCst);
+        }
+        Some(plan.kind)
+    }
+}
+
+fn injected(kind: FaultKind, op: OpKind) -> io::Error {
+    io::Error::new(
+        kind.io_kind().unwrap_or(io::ErrorKind::Other),
+        format!("injected {} fault on {}", kind.name(), op.name()),
+    )
+}
+
+impl<R: Read> Read for Faulty<R> {
+    fn read(&mut self, buf: &mut [u8]) -> io::Result<usize> {
+        match self.tick(OpKind::Read) {
+            Some(FaultKind::ShortZero) => Ok(0),
+            Some(k) => Err(injected(k, OpKind::Read)),
+            None => {
+                let n = self.inner.read(buf)?;
+                if n == 0 && !buf.is_empty() {
+                    self.stats.saw_eof.store(true, Ordering::SeqCst);
+                }
+                self.stats.bytes_read.fetch_add(n as u64, Ordering::SeqCst);
+                Ok(n)
+            }
+        }
+    }
+}
+
+impl<R: Write> Write for Faulty<R> {
+    fn write(&mut self, buf: &[u8]) -> io::Result<usize> {
+        match self.tick(OpKind::Write) {
+            Some(FaultKind::ShortZero) => Ok(0),
+            Some(k) => Err(injected(k, OpKind::Write)),
+            None => {
+                let n = self.inner.write(buf)?;
+                self.stats.bytes_written.fetch_add(n as u64, Ordering::SeqCst);
+                Ok(n)
+            }
+        }
+    }
+
+    fn flush(&mut self) -> io::Result<()> {
+        match self.tick(OpKind::Flush) {
+            Some(k) => Err(injected(k, OpKind::Flush)),
+            None => self.inner.flush(),
+        }
+    }
+}
+
+impl<R: Seek> Seek for Faulty<R> {
+    fn seek(&mut self, pos: SeekFrom) -> io::Result<u64> {
+        match self.tick(OpKind::Seek) {
+            Some(k) => Err(injected(k, OpKind::Seek)),
+            None => self.inner.seek(pos),
+        }
+    }
+}
+
+// ------------------------------------------------------------------------------------------------
+// Counting
+// ------------------------------------------------------------------------------------------------
+
+/// One recorded call.
+#[derive(Clone, Debug, PartialEq, Eq, Serialize, Deserialize)]
+pub struct OpRecord {
+    pub op: OpKind,
+    /// read/write: requested length; seek: the offset argument (see `whence`); flush: 0
+    pub arg: i64,
+    /// seek only: 0 Start, 1 Current, 2 End
+    pub whence: u8,
+    /// Ok: bytes transferred / new position; Err: the error kind's debug name
+    pub result: Result<u64, String>,
+}
+
+/// Shared op log of a [`Counting`] stream.
+#[derive(Default, Debug)]
+pub struct OpLog {
+    ops: Mutex<Vec<OpRecord>>,
+    total: AtomicU64,
+    cap: usize,
+}
+
+impl OpLog {
+    /// Number of calls seen (also beyond the recording cap).
+    pub fn len(&self) -> u64 {
+        self.total.load(Ordering::SeqCst)
+    }
+
+    pub fn is_empty(&self) -> bool {
+        self.len() == 0
+    }
+
+    /// The recorded trace (at most `cap` first calls).
+    pub fn trace(&self) -> Vec<OpRecord> {
+        self.ops.lock().unwrap().clone()
+    }
+
+    pub fn count_of(&self, k: OpKind) -> usize {
+        self.ops.lock().unwrap().iter().filter(|o| o.op == k).count()
+    }
+
+    fn push(&self, r: OpRecord) {
+        self.total.fetch_add(1, Ordering::SeqCst);
+        let mut g = self.ops.lock().unwrap();
+        if g.len() < self.cap {
+            g.push(r);
+        }
+    }
+}
+
+/// Records the op trace; never changes behaviour.
+pub struct Counting<R> {
+    inner: R,
+    log: Arc<OpLog>,
+}
+
+impl<R> Counting<R> {
+    /// Records up to one million calls.
+    pub fn new(inner: R) -> Self {
+        Self::with_cap(inner, 1_000_000)
+    }
+
+    pub fn with_cap(inner: R, cap: usize) -> Self {
+        Counting { inner, log: Arc::new(OpLog { ops: Mutex::new(vec![]), total: AtomicU64::new(0), cap }) }
+    }
+
+    pub fn log(&self) -> Arc<OpLog> {
+        self.log.clone()
+    }
+
+    pub fn get_ref(&self) -> &R {
+        &self.inner
+    }
+
+    pub fn get_mut(&mut self) -> &mut R {
+        &mut self.inner
+    }
+
+    pub fn into_inner(self) -> R {
+        self.inner
+    }
+}
+
+fn res_of<T: Into<u64> + Copy>(r: &io::Result<T>) -> Result<u64, String> {
+    match r {
+        Ok(n) => Ok((*n).into()),
+        Err(e) => Err(format!("{:?}", e.kind())),
+    }
+}
+
+impl<R: Read> Read for Counting<R> {
+    fn read(&mut self, buf: &mut [u8]) -> io::Result<usize> {
+        let r = self.inner.read(buf);
+        let rr = r.as_ref().map(|n| *n as u64).map_err(|e| format!("{:?}", e.kind()));
+        self.log.push(OpRecord { op: OpKind::Read, arg: buf.len() as i64, whence: 0, result: rr });
+        r
+    }
+}
+
+impl<R: Write> Write for Counting<R> {
+    fn write(&mut self, buf: &[u8]) -> io::Result<usize> {
+        let r = self.inner.write(buf);
+        let rr = r.as_ref().map(|n| *n as u64).map_err(|e| format!("{:?}", e.kind()));
+        self.log.push(OpRecord { op: OpKind::Write, arg: buf.len() as i64, whence: 0, result: rr });
+        r
+    }
+
+    fn flush(&mut self) -> io::Result<()> {
+        let r = self.inner.flush();
+        let rr = r.as_ref().map(|_| 0u64).map_err(|e| format!("{:?}", e.kind()));
+        self.log.push(OpRecord { op: OpKind::Flush, arg: 0, whence: 0, result: rr });
+        r
+    }
+}
+
+impl<R: Seek> Seek for Counting<R> {
+    fn seek(&mut self, pos: SeekFrom) -> io::Result<u64> {
+        let r = self.inner.seek(pos);
+        let (arg, whence) = match pos {
+            SeekFrom::Start(p) => (p as i64, 0),
+            SeekFrom::Current(d) => (d, 1),
+            SeekFrom::End(d) => (d, 2),
+        };
+        self.log.push(OpRecord { op: OpKind::Seek, arg, whence, result: res_of(&r) });
+        r
+    }
+}
+
+#[cfg(test)]
+mod tests {
+    use std::io::Cursor;
+
+    use super::*;
+
+    #[test]
+    fn chunky_roundtrip() {
+        let data: Vec<u8> = (0..1000u32).map(|i| i as u8).collect();
+        for k in [1usize, 2, 3, 7, 64] {
+            let mut c = Chunky::new(Cursor::new(data.clone()), k, 42);
+            let mut out = vec![];
+            c.read_to_end(&mut out).unwrap();
+            assert_eq!(out, data);
+            let mut w = Chunky::new(Cursor::new(Vec::new()), k, 43);
+            w.write_all(&data).unwrap();
+            assert_eq!(w.into_inner().into_inner(), data);
+        }
+    }
+
+    #[test]
+    fn faulty_counts_and_fires() {
+        let data = vec![7u8; 100];
+        let mut f = Faulty::dry(Cursor::new(data.clone()));
+        let st = f.stats();
+        let mut b = [0u8; 10];
+        f.read(&mut b).unwrap();
+        f.seek(SeekFrom::Start(0)).unwrap();
+        f.read(&mut b).unwrap();
+        assert_eq!((st.ops(), st.reads(), st.seeks(), st.fired()), (3, 2, 1, 0));
+        let mut f = Faulty::new(Cursor::new(data.clone()), FaultPlan::nth(1, FaultKind::Other));
+        let st = f.stats();
+        f.read(&mut b).unwrap();
+        assert!(f.seek(SeekFrom::Start(0)).is_err());
+        f.read(&mut b).unwrap();
+        assert_eq!((st.fired(), st.fired_on()), (1, Some(OpKind::Seek)));
+        let mut f = Faulty::new(Cursor::new(data), FaultPlan::nth_of(1, OpKind::Read, FaultKind::ShortZero));
+        f.read(&mut b).unwrap();
+        f.seek(SeekFrom::Start(0)).unwrap();
+        assert_eq!(f.read(&mut b).unwrap(), 0);
+        assert_eq!(f.read(&mut b).unwrap(), 10);
+    }
+
+    #[test]
+    fn counting_trace() {
+        let mut c = Counting::new(Cursor::new(vec![1u8; 10]));
+        let log = c.log();
+        let mut b = [0u8; 4];
+        c.read(&mut b).unwrap();
+        c.seek(SeekFrom::End(-2)).unwrap();
+        c.write(&[1, 2, 3]).unwrap();
+        c.flush().unwrap();
+        let t = log.trace();
+        assert_eq!(t.len(), 4);
+        assert_eq!(t[1], OpRecord { op: OpKind::Seek, arg: -2, whence: 2, result: Ok(8) });
+        assert_eq!(t[2].result, Ok(2));
+    }
+}
